@@ -780,6 +780,8 @@ def _run_program(ctx, prog, lb, plan, stats, judge_cases, judge_meta, burst_case
         # caller saw what the model gives for its call made alone, on its own request / reply bytes)
         for fr in resp.get("burst_frames") or []:
             rnd = fr.get("round")
+            if ctx.tier == "quick" and rnd != 0:
+                continue    # quick tier: the direct oracle above sees every round, the model the first one
             bs = [b for b in resp.get("burst") or [] if b.get("round") == rnd and "client" in b and
                   b["index"] < len(resp["calls"]) and "client" in resp["calls"][b["index"]]]
             if len(bs) < 2:
@@ -968,7 +970,7 @@ def run(ctx, br):
                     tagbits[TAGS[b]] += 1
     # --- bursts on the composed model
     t_j = __import__("time").time()
-    bverdicts = vlib.run_judge(ctx.rundir, "JGenCallConc", "judge", burst_cases, shard=500000) if burst_cases else []
+    bverdicts = vlib.run_judge(ctx.rundir, "JGenCallConc", "judge", burst_cases, shard=500000, name="jb") if burst_cases else []
     stats["ms_judge_burst"] += int(1000 * (__import__("time").time() - t_j))
     BURST_FAIL = {-1001: "op ids of the calls in flight are not pairwise distinct",
                   -1002: "a call's reply would not be delivered to it when made alone (delivered_aloneb)",
